@@ -75,7 +75,7 @@ def gen_chunk(rng):
     if r < 0.36:
         return "".join(rng.choice([" ", "\xa0", "\t"]) for _ in range(rng.randrange(1, 3))) + "\n"
     if r < 0.5:
-        return rng.choice([" ", "\n  ", "", "\xa0"]) + X.rand_text(rng) + rng.choice([" ", "\n", "", "\t"])
+        return rng.choice([" ", "\n  ", "", "\xa0"]) + X.rand_text(rng) + rng.choice([" ", "\n", "", "\t", "\r"])
     if r < 0.6:
         return "a  b\n\tc " + X.rand_text(rng, maxlen=5)
     return X.rand_text(rng)
@@ -298,7 +298,7 @@ DIRECTED = [
     '<r xmlns:a="u" xmlns:b="u" a:x="1" xml:lang="en"><!-- c --><c b:y="2"/><!-- d --></r>',
     '<eml:eml xmlns:eml="https://eml.ecoinformatics.org/eml-2.2.0" xmlns:xsi="http://www.w3.org/2001/XMLSchema-instance" '
     'xsi:schemaLocation="a b" packageId="x.1.1"><dataset><title> A  title\n </title><para>  keep   this </para>\n  </dataset></eml:eml>',
-    '<a k="&#10;x&#9;&#13;" xml:lang="&#10;"/>', '<a>\xa0</a>', '<a>\t \xa0</a>', '<a>x<![CDATA[ <y> ]]>z</a>', '<a>&#32;&#9;</a>', '<a><![CDATA[]]></a>', '<a><b> </b>  <c>\n</c>\t</a>',
+    '<a k="&#10;x&#9;&#13;" xml:lang="&#10;"/>', '<a>x&#13;y<b/>t&#13;u</a>', '<a>&#13;</a>', '<a>\xa0</a>', '<a>\t \xa0</a>', '<a>x<![CDATA[ <y> ]]>z</a>', '<a>&#32;&#9;</a>', '<a><![CDATA[]]></a>', '<a><b> </b>  <c>\n</c>\t</a>',
 ]
 FLAGS = [(True, False), (True, True), (False, False), (False, True)]
 
